@@ -21,11 +21,13 @@ Import ListNotations.
 Open Scope string_scope.
 Open Scope nat_scope.
 
-(* every method of a tracked type and every function with an access has a role (a function
-   missing from the role map gets role Unknown, overlaps everything, and fails this) *)
+(* every method of a tracked type and every function with an access to a field (or captured
+   local) has a role (a function missing from the role map gets role Unknown, overlaps
+   everything, and fails this).  Accesses to package-level variables (a_global) by functions
+   outside the role map need no entry: they get role AnyGo, which overlaps everything but Init. *)
 Theorem C14_roles_total :
   (forall f, In f functions -> has_role f = true) /\
-  (forall a, In a accesses -> has_role (a_func a) = true).
+  (forall a, In a accesses -> a_global a = false -> has_role (a_func a) = true).
 Proof. exact roles_total_ok. Qed.
 Print Assumptions C14_roles_total.
 
@@ -34,7 +36,10 @@ Theorem C14_callers_hold_locks : forall c, In c calls -> call_ok c = true.
 Proof. exact callers_hold_locks. Qed.
 Print Assumptions C14_callers_hold_locks.
 
-(* lockset condition for every pair of accesses outside the two known findings: same field, at
+(* the table covers fields of the tracked struct types, goroutine-captured locals AND the
+   package-level variables of the scanned packages (a write outside package initialisation
+   needs a common package-level mutex with every read).
+   lockset condition for every pair of accesses outside the two known findings: same field, at
    least one write, roles that can overlap => the same mutex of the same object is held by
    both and not both in shared mode, or the accesses are ordered by a channel close / send ->
    receive, or the type is a listed goroutine-confined exception (rdb.Context) *)
